@@ -240,6 +240,9 @@ fn validate_child_parents_attrs(children_attrs: &[ChildParentsAttr], type_paths:
             if !unique_field.insert(child_data) {
                 errors.insert("Ident here must be unique.".into(), child_data.field_path.span());
             }
+            if child_data.type_hint == TypeHint::Unit {
+                errors.insert("Type hint 'as Unit' is not supported in #[child_parents(...)]: members are flattened into the nested struct.".into(), child_data.field_path.span());
+            }
         }
     }
 }
